@@ -990,8 +990,45 @@ fn emit_build(out: &mut Out, rt: &tokio::runtime::Runtime, dir: &Path, text: &st
 
 // ------------------------------------------------------------------------------------------------
 
+/// `C18 deep <n> <open|closed>`: the real parser on `a[a[a[…` (n levels) in a child process.
+/// The property demands a pipeline (closed) or an error (open); a dead child is a failure.
+fn deep_probe(out: &mut Out, dir: &Path, n: usize, open: bool) {
+	let case = format!("C18 deep {n} {}", if open { "open" } else { "closed" });
+	let mut cmd = std::process::Command::new(std::env::current_exe().unwrap());
+	cmd.args(["C18", "--out"]).arg(dir).args(["deep", "real", &n.to_string()]);
+	if open {
+		cmd.arg("open");
+	}
+	let o = cmd.output().unwrap();
+	let stdout = String::from_utf8_lossy(&o.stdout).to_string();
+	let want = if open { "err" } else { "ok" };
+	let alive = o.status.success() && stdout.contains(&format!("deep real {n}: {want}"));
+	out.eval(&case, true);
+	out.count(if alive { "deep_probe_answered" } else { "deep_probe_process_died" });
+	if alive {
+		out.oracle(true, "", json!(null), json!(null));
+	} else {
+		let died = !o.status.success();
+		out.oracle(
+			false,
+			&format!(
+				"C18 deep-nesting: parse_vpl on {n} nested source lists ({}) {} instead of returning {}",
+				if open { "never closed: text outside the syntax" } else { "well-formed" },
+				if died { "kills the process (stack overflow in the recursive nom parser)" } else { "gives the wrong verdict" },
+				if open { "an error" } else { "the pipeline" }
+			),
+			json!({"kind": if died { "stack-overflow" } else { "deep-wrong-verdict" }, "open": open}),
+			json!({"case": case, "status": format!("{:?}", o.status), "stderr": trunc(&String::from_utf8_lossy(&o.stderr), 200)}),
+		);
+	}
+}
+
 fn replay_line(out: &mut Out, rt: &tokio::runtime::Runtime, dir: &Path, line: &str) {
 	let t: Vec<&str> = line.split(' ').collect();
+	if t.len() == 4 && t[0] == "C18" && t[1] == "deep" {
+		deep_probe(out, dir, t[2].parse().unwrap(), t[3] == "open");
+		return;
+	}
 	if t.len() != 3 || t[0] != "C18" {
 		return;
 	}
@@ -1015,6 +1052,26 @@ pub fn run(args: &Args) {
 	std::fs::create_dir_all(&dir).unwrap();
 	std::fs::write(dir.join("data.csv"), "id,name,population\n1,Berlin,3500000\n2,Hamburg,1800000\n").unwrap();
 
+	// `vth C18 --out D deep <real|ref> <n> [open]`: nesting probe (run as a child process: deep recursion may
+	// exhaust the native stack of the parser, which aborts the process; outside the generated range depth ≤ 4)
+	if args.extra.first().map(|s| s.as_str()) == Some("deep") {
+		let n: usize = args.extra[2].parse().unwrap();
+		let text = if args.extra.get(3).map(|s| s.as_str()) == Some("open") { "a[".repeat(n) } else { format!("{}b{}", "a[".repeat(n), "]".repeat(n)) };
+		let verdict = if args.extra[1] == "real" {
+			match parse_vpl(&text) {
+				Ok(p) => {
+					std::mem::forget(p); // dropping the tree recurses as well
+					"ok"
+				}
+				Err(_) => "err",
+			}
+		} else {
+			let r = ref_parse(&text);
+			if r == "err" { "err" } else { "ok" }
+		};
+		println!("deep {} {n}: {verdict}", args.extra[1]);
+		std::process::exit(0);
+	}
 	if let Some(p) = &args.replay {
 		for line in std::fs::read_to_string(p).unwrap().lines() {
 			replay_line(&mut out, &rt, &dir, line);
@@ -1104,6 +1161,11 @@ pub fn run(args: &Args) {
 			}
 		}
 		out.notes.push("exhaustive part: every text of length ≤ 5 over the alphabet {a = \" [ ] , | space backslash}".into());
+	}
+
+	// nesting far beyond the generated range (child process; the model has no native stack)
+	for (n, open) in [(64, false), (64, true), (1000, false), (1000, true), (100000, false), (100000, true)] {
+		deep_probe(&mut out, &dir, n, open);
 	}
 
 	// build cases
